@@ -152,6 +152,8 @@ pub struct Gen<'a> {
     pub trees: Vec<Vec<[u64; 4]>>,
     /// roots known to the store (initial ones and those produced by mtree_set) with their depth
     roots: Vec<([u64; 4], u64)>,
+    /// advice map entries loaded into the advice provider
+    pub map_entries: Vec<([u64; 4], Vec<u64>)>,
 }
 
 #[derive(Clone, Copy, PartialEq, Eq, Debug)]
@@ -221,6 +223,7 @@ impl<'a> Gen<'a> {
             force_fresh: 0,
             trees: vec![],
             roots: vec![],
+            map_entries: vec![],
         }
     }
 
@@ -531,6 +534,9 @@ impl<'a> Gen<'a> {
             }
             5 => {
                 self.classes.insert("adv");
+                if !self.map_entries.is_empty() && self.force_fresh == 0 && self.ch.chance(1, 4) {
+                    return self.gen_mapval(m, out);
+                }
                 let c = self.ch.pick(3);
                 match c {
                     0 => {
@@ -727,6 +733,37 @@ impl<'a> Gen<'a> {
                 out.push(Node::I(ins));
                 self.failed = Some(f);
             }
+            Err(_) => {
+                *m = snapshot;
+                out.truncate(mark);
+            }
+        }
+    }
+
+    /// adv.push_mapval / adv.push_mapvaln on a key of the advice map, followed by reads of (some
+    /// of) the values the injector put on the advice stack
+    fn gen_mapval(&mut self, m: &mut Model, out: &mut Vec<Node>) {
+        self.classes.insert("adv-map");
+        let snapshot = m.clone();
+        let mark = out.len();
+        let (key, vals) = self.map_entries[self.ch.pick(self.map_entries.len())].clone();
+        let i = self.push_ins(key.to_vec());
+        m.step(&i).unwrap();
+        out.push(Node::I(i));
+        let with_len = self.ch.chance(1, 2);
+        let op = if with_len { Op::AdvPushMapvaln } else { Op::AdvPushMapval };
+        let ins = Ins::new(op, None, op_name(op));
+        if m.step(&ins).is_err() {
+            *m = snapshot;
+            out.truncate(mark);
+            return;
+        }
+        out.push(Node::I(ins));
+        let avail = vals.len() + if with_len { 1 } else { 0 };
+        let k = 1 + self.ch.pick(avail.min(16));
+        let ins = Ins::new(Op::AdvPush, Some(k as u64), format!("adv_push.{}", k));
+        match m.step(&ins) {
+            Ok(()) => out.push(Node::I(ins)),
             Err(_) => {
                 *m = snapshot;
                 out.truncate(mark);
@@ -1381,6 +1418,15 @@ pub fn generate(choices: &[u16], cfg: GenCfg) -> Generated {
             g.trees.push(leaves);
         }
     }
+    // advice map entries for adv.push_mapval / adv.push_mapvaln
+    if g.cfg.adv && g.cfg.decorators && g.ch.chance(1, 2) {
+        for _ in 0..1 + g.ch.pick(3) {
+            let key = [g.ch.felt(), g.ch.felt(), g.ch.felt(), g.ch.felt()];
+            let vals: Vec<u64> = (0..1 + g.ch.pick(9)).map(|_| g.ch.felt()).collect();
+            m.adv_map.insert(key, vals.clone());
+            g.map_entries.push((key, vals));
+        }
+    }
     m.adv_on_demand = g.cfg.adv;
     m.adv_rng = 0x1234_5678_9abc_def1 ^ ((g.ch.next() as u64) << 20);
     let len = g.cfg.max_nodes;
@@ -1402,6 +1448,9 @@ pub fn generate(choices: &[u16], cfg: GenCfg) -> Generated {
     for t in &g.trees {
         load_tree(&mut fm, t);
     }
+    for (k, v) in &g.map_entries {
+        fm.adv_map.insert(*k, v.clone());
+    }
     fm.adv = tape.clone();
     fm.count_ops = true;
     let r = fm.run(&prog);
@@ -1421,6 +1470,7 @@ pub fn generate(choices: &[u16], cfg: GenCfg) -> Generated {
         stack: inputs,
         adv: tape,
         trees: g.trees.clone(),
+        adv_map: g.map_entries.iter().cloned().collect(),
         ..Case::default()
     };
     Generated {
